@@ -54,7 +54,7 @@ def expr_items(tier, prefix="C01"):
 
 
 def items(tier):
-    return expr_items(tier) + models.model_items(tier, "C01")
+    return expr_items(tier) + models.model_items(tier, "C01", deep=True)
 
 
 def _fail(finding, what, expr, full, detail, size):
